@@ -53,6 +53,12 @@ func (p *parser) expression(prec int) (Node, error) {
 		return nil, err
 	}
 
+	return p.continueExpression(node, prec)
+}
+
+func (p *parser) continueExpression(node Node, prec int) (Node, error) {
+	var err error
+
 	newPrec := precedence(p.curr.Type)
 	for newPrec > prec {
 		switch p.curr.Type {
@@ -89,7 +95,7 @@ func (p *parser) expression(prec int) (Node, error) {
 				return nil, err
 			}
 
-			right, err := p.projection(precedence(lexer.ObjectWildcardToken))
+			right, err := p.projection()
 			if err != nil {
 				return nil, err
 			}
@@ -210,7 +216,7 @@ func (p *parser) expression(prec int) (Node, error) {
 				return nil, err
 			}
 
-			right, err := p.projection(newPrec)
+			right, err := p.projection()
 			if err != nil {
 				return nil, err
 			}
@@ -232,7 +238,7 @@ func (p *parser) expression(prec int) (Node, error) {
 				return nil, err
 			}
 
-			right, err := p.projection(newPrec)
+			right, err := p.projection()
 			if err != nil {
 				return nil, err
 			}
@@ -350,7 +356,7 @@ func (p *parser) expression(prec int) (Node, error) {
 				return nil, err
 			}
 
-			right, err := p.projection(newPrec)
+			right, err := p.projection()
 			if err != nil {
 				return nil, err
 			}
@@ -377,7 +383,7 @@ func (p *parser) expression(prec int) (Node, error) {
 			}
 
 			if project {
-				right, err := p.projection(newPrec)
+				right, err := p.projection()
 				if err != nil {
 					return nil, err
 				}
@@ -1637,7 +1643,7 @@ func (p *parser) primaryExpression() (Node, error) {
 			return nil, err
 		}
 
-		child, err := p.projection(precedence(lexer.ObjectWildcardToken))
+		child, err := p.projection()
 		if err != nil {
 			return nil, err
 		}
@@ -1654,7 +1660,7 @@ func (p *parser) primaryExpression() (Node, error) {
 			return nil, err
 		}
 
-		child, err := p.projection(precedence(lexer.ObjectWildcardToken))
+		child, err := p.projection()
 		if err != nil {
 			return nil, err
 		}
@@ -1682,7 +1688,7 @@ func (p *parser) primaryExpression() (Node, error) {
 			return nil, err
 		}
 
-		child, err := p.projection(precedence(lexer.FilterToken))
+		child, err := p.projection()
 		if err != nil {
 			return nil, err
 		}
@@ -1702,7 +1708,7 @@ func (p *parser) primaryExpression() (Node, error) {
 			return nil, err
 		}
 
-		child, err := p.projection(precedence(lexer.FlattenToken))
+		child, err := p.projection()
 		if err != nil {
 			return nil, err
 		}
@@ -1784,7 +1790,7 @@ func (p *parser) primaryExpression() (Node, error) {
 			}
 
 			if project {
-				right, err := p.projection(precedence(lexer.OpenSqBraceToken))
+				right, err := p.projection()
 				if err != nil {
 					return nil, err
 				}
@@ -1873,196 +1879,19 @@ func (p *parser) primaryExpression() (Node, error) {
 	return node, nil
 }
 
-func (p *parser) projection(prec int) (Node, error) {
-	var node Node
-	var err error
+// projection parses the right-hand side of a projection: the selectors that
+// follow it, up to a flatten or an operator that binds less tightly.
+func (p *parser) projection() (Node, error) {
 	switch p.curr.Type {
-	case lexer.DotToken:
-		switch p.next.Type {
-		case lexer.ArrayWildcardToken:
-			if err := p.advance2(); err != nil {
-				return nil, err
-			}
-
-			node = &SelectArraySingleCurrentNode{
-				Field: ObjectValuesCurrentNode{},
-			}
-		case lexer.OpenBraceToken:
-			if err := p.advance2(); err != nil {
-				return nil, err
-			}
-
-			node, err = p.selectObject(nil)
-			if err != nil {
-				return nil, err
-			}
-		case lexer.OpenSqBraceToken:
-			if err := p.advance2(); err != nil {
-				return nil, err
-			}
-
-			node, err = p.selectArray(nil)
-			if err != nil {
-				return nil, err
-			}
-		case lexer.QuotedIdentifierToken,
-			lexer.UnquotedIdentifierToken:
-			if err := p.advance(); err != nil {
-				return nil, err
-			}
-
-			node, err = p.expression(prec)
-			if err != nil {
-				return nil, err
-			}
-		default:
-			return nil, &unexpectedTokenError{p.curr.Value}
-		}
-	case lexer.FilterToken:
-		if err := p.advance(); err != nil {
-			return nil, err
-		}
-
-		filter, err := p.filter()
-		if err != nil {
-			return nil, err
-		}
-
-		node = &FilterCurrentNode{
-			Filter: filter,
-		}
-	case lexer.ObjectWildcardToken:
-		if p.next.Type == lexer.EndToken {
-			if err := p.advance(); err != nil {
-				return nil, err
-			}
-
-			node = ObjectValuesCurrentNode{}
-		} else {
-			p.setCurrent(lexer.Token{
-				Type:  lexer.AsteriskToken,
-				Value: p.curr.Value[1:],
-			})
-
-			node, err = p.expression(prec)
-			if err != nil {
-				return nil, err
-			}
-		}
-	case lexer.OpenSqBraceToken:
-		if err := p.advance(); err != nil {
-			return nil, err
-		}
-
-		node, _, err = p.index(nil)
-		if err != nil {
-			return nil, err
-		}
-	default:
-		return nil, nil
+	case lexer.ArrayWildcardToken,
+		lexer.DotToken,
+		lexer.FilterToken,
+		lexer.ObjectWildcardToken,
+		lexer.OpenSqBraceToken:
+		return p.continueExpression(CurrentNode{}, precedence(lexer.FlattenToken))
 	}
 
-	newPrec := precedence(p.curr.Type)
-	for newPrec > prec {
-		switch p.curr.Type {
-		case lexer.DotToken:
-			switch p.next.Type {
-			case lexer.ArrayWildcardToken:
-				if err := p.advance2(); err != nil {
-					return nil, err
-				}
-
-				node = &SelectArraySingleNode{
-					Child: node,
-					Field: ObjectValuesCurrentNode{},
-				}
-			case lexer.OpenBraceToken:
-				if err := p.advance2(); err != nil {
-					return nil, err
-				}
-
-				node, err = p.selectObject(node)
-				if err != nil {
-					return nil, err
-				}
-			case lexer.OpenSqBraceToken:
-				if err := p.advance2(); err != nil {
-					return nil, err
-				}
-
-				node, err = p.selectArray(node)
-				if err != nil {
-					return nil, err
-				}
-			case lexer.QuotedIdentifierToken,
-				lexer.UnquotedIdentifierToken:
-				if err := p.advance(); err != nil {
-					return nil, err
-				}
-
-				node, err = p.expression(newPrec)
-				if err != nil {
-					return nil, err
-				}
-			default:
-				return nil, &unexpectedTokenError{p.curr.Value}
-			}
-		case lexer.FilterToken:
-			if err := p.advance(); err != nil {
-				return nil, err
-			}
-
-			filter, err := p.filter()
-			if err != nil {
-				return nil, err
-			}
-
-			node = &FilterNode{
-				Child:  node,
-				Filter: filter,
-			}
-		case lexer.ObjectWildcardToken:
-			if p.curr.Type == lexer.EndToken {
-				if err := p.advance(); err != nil {
-					return nil, err
-				}
-
-				node = &ObjectValuesNode{
-					Child: node,
-				}
-			} else {
-				p.setCurrent(lexer.Token{
-					Type:  lexer.AsteriskToken,
-					Value: p.curr.Value[1:],
-				})
-
-				right, err := p.expression(newPrec)
-				if err != nil {
-					return nil, err
-				}
-
-				node = &ProjectObjectNode{
-					Left:  node,
-					Right: right,
-				}
-			}
-		case lexer.OpenSqBraceToken:
-			if err := p.advance(); err != nil {
-				return nil, err
-			}
-
-			node, _, err = p.index(node)
-			if err != nil {
-				return nil, err
-			}
-		default:
-			return nil, &unexpectedTokenError{p.curr.Value}
-		}
-
-		newPrec = precedence(p.curr.Type)
-	}
-
-	return node, nil
+	return nil, nil
 }
 
 func (p *parser) selectArray(child Node) (Node, error) {
@@ -2185,10 +2014,6 @@ func (p *parser) selectObject(child Node) (Node, error) {
 			}, nil
 		}
 	}
-}
-
-func (p *parser) setCurrent(tok lexer.Token) {
-	p.curr = tok
 }
 
 func parseJSONLiteral(s string) (Node, error) {
